@@ -239,7 +239,7 @@ def textLike (ty : Val) : Bool :=
 
 theorem transformValue_textlike (T : Tables) (b : Bind) (st : TState)
     (hen : Enabled T st.ctx "auto_value".toList) (hopt : Dict.get? st.attrs "auto_value".toList = none)
-    (hty : textLike ((Dict.get? st.attrs sType).getD (.text [])) = true)
+    (hty : textLike ((Dict.get? st.attrs sType).getD (.text [])).lowerKw = true)
     (hno : Dict.get? st.attrs sValue = none) (htag : T.autoTag sValue sInput = true) :
     transformValue T sInput (some b) st = .ok { st with attrs := Dict.set st.attrs sValue (.text b.u) } := by
   have hp := hen st.attrs hopt
@@ -283,7 +283,7 @@ theorem transformValue_textarea (T : Tables) (b : Bind) (st : TState)
 theorem transformValue_check (T : Tables) (b : Bind) (st : TState) (ty lit : Val)
     (hen : Enabled T st.ctx "auto_value".toList) (hopt : Dict.get? st.attrs "auto_value".toList = none)
     (hty : Dict.get? st.attrs sType = some ty)
-    (hck : (ty.eqStr "radio".toList || ty.eqStr "checkbox".toList) = true)
+    (hck : (ty.lowerKw.eqStr "radio".toList || ty.lowerKw.eqStr "checkbox".toList) = true)
     (hlit : Dict.get? st.attrs sValue = some lit) (hkind : ∀ s ms, b.kind ≠ .array s ms)
     (htag : T.autoTag sValue sInput = true) :
     transformValue T sInput (some b) st =
@@ -307,7 +307,7 @@ theorem transformValue_check (T : Tables) (b : Bind) (st : TState) (ty lit : Val
 theorem transformValue_check_gen (T : Tables) (b : Bind) (st : TState) (ty lit : Val)
     (hen : Enabled T st.ctx "auto_value".toList) (hopt : Dict.get? st.attrs "auto_value".toList = none)
     (hty : Dict.get? st.attrs sType = some ty)
-    (hck : (ty.eqStr "radio".toList || ty.eqStr "checkbox".toList) = true)
+    (hck : (ty.lowerKw.eqStr "radio".toList || ty.lowerKw.eqStr "checkbox".toList) = true)
     (hlit : Dict.get? st.attrs sValue = some lit) (m : Bool) (hm : b.matches T (some lit) = .ok m)
     (htag : T.autoTag sValue sInput = true) :
     transformValue T sInput (some b) st =
@@ -356,7 +356,7 @@ theorem transformValue_option (T : Tables) (b : Bind) (st : TState) (lit : Val) 
     exactly when the element's text is that value -/
 theorem transformValue_boolcheck (T : Tables) (b : Bind) (st : TState) (ty : Val) (tru : Str)
     (hen : Enabled T st.ctx "auto_value".toList) (hopt : Dict.get? st.attrs "auto_value".toList = none)
-    (hty : Dict.get? st.attrs sType = some ty) (hck : ty.eqStr "checkbox".toList = true)
+    (hty : Dict.get? st.attrs sType = some ty) (hck : ty.lowerKw.eqStr "checkbox".toList = true)
     (hno : Dict.get? st.attrs sValue = none) (hkind : b.kind = .boolean tru)
     (htag : T.autoTag sValue sInput = true) :
     transformValue T sInput (some b) st =
